@@ -1486,6 +1486,7 @@ pub fn c04_post(case: &Case) {
                     ("blob_pages", case.get("blob_pages").to_string()),
                     ("sequence_regression_in_a_block", regress_of(m, mask, Some((life.lo, p))).to_string()),
                     ("second_life", "true".to_string()),
+                    ("flushers_gt_1", (case.get("flushers") > 1).to_string()),
                 ];
                 let kops: &[Option<u32>] = life.ops.get(&k).map(|v| v.as_slice()).unwrap_or(&[]);
                 let h = crate::hybscn::hash_of(hmode, k);
